@@ -149,7 +149,7 @@ CHECKS = {
         "exit) are known findings. Larger bodies by TLC simulation.",
         design="2/C09",
         note=TRUSTED + " Dead code (statements after return/raise/break/continue in the same block) is outside the grammar "
-        "(pyanalyze deliberately analyses it as fall-through); nested functions/global/nonlocal are not generated yet.",
+        "(pyanalyze deliberately analyses it as fall-through); nested functions with nonlocal are generated as one-statement closures called after a dominating definition (ScopeGen.closure*.cfg); `global` is not generated (module variables are flow-insensitive by design); loop-exit bodies with break under try / suppressing with form their own slice (ScopeGen.loopexit.cfg).",
     ),
     "C10": dict(
         technique="TLA+ spec Determinism.tla (set-iteration sites on the way to output as schedule choices; the Checker as a cache "
@@ -216,7 +216,7 @@ CHECKS = {
         "value API with drift 0. Two defects were repaired (union hash, substitution into unions), the identity hash of "
         "unhashable literals is a known finding.",
         design="2/C14",
-        note=TRUSTED + " TypedDict, callable and annotated values are not in the term space yet.",
+        note=TRUSTED + " TypedDict and DictIncomplete (optional / unpacked pairs) terms are in the term space; callable and annotated values are not yet.",
     ),
     "C15": dict(
         technique="TLA+ spec TypeVarSolve.tla: typevar.solve as a fold machine (bottom, top, options; one action per branch, TLC's "
@@ -244,7 +244,7 @@ CHECKS = {
         "the three known deviation classes are named predicates in the spec (known_findings.jsonl), everything else must "
         "hold. Real loop bound by trace validation of every iteration (inserted line, position, first diagnostic).",
         design="2/C16",
-        note=TRUSTED + " Replacement fixes other than add-ignores are not yet covered by this check.",
+        note=TRUSTED + " Replacement fixes (missing_f, use_fstrings, unused_variable, too_many_positional_args, unused_ignore) are covered by part B (FixReplace.tla / FixReplaceTrace.tla, c16b.py) with post-conditions only: parses, proposing diagnostic gone, AST delta within the allowed set; the decompiler's text fidelity is outside what TLA+ decides.",
     ),
     "C17": dict(
         technique="TLA+ specs PercentFormat.tla / StrFormat.tla (transcription of format_strings.py + _str_format_impl vs an "
